@@ -265,6 +265,9 @@ class AckMonitor(netsim.Monitor):
         self.oblig = []       # [receiver, space, pn, deadline, done]
         self.next_tx = {}     # (receiver, space) -> pn that the next transmission in space must ack
         self.late = set()
+        self.sent_phase = {"c": 0, "s": 0}    # key phase bit of the endpoint's latest 1-RTT packet
+        self.local_ku = {"c": None, "s": None}  # phase bit the endpoint moved to by its OWN key update, until
+        #                                         the peer has answered in that phase
 
     def on_deliver(self, w, ep, d, addr):
         if d.kind not in ("genuine", "dup"):
@@ -272,6 +275,15 @@ class AckMonitor(netsim.Monitor):
         for r in d.recs:
             if not r.opened or r.epoch is None or r.pn is None:
                 continue
+            if r.type == "1rtt" and self.local_ku[ep.name] is not None:
+                if r.key_phase == self.local_ku[ep.name]:
+                    self.local_ku[ep.name] = None   # the peer has followed the update
+                else:
+                    # sent by the peer before it saw the update: protected with keys this endpoint may have
+                    # discarded already (RFC 9001 6.5: retaining the old read keys is optional) - if it is
+                    # dropped, that is packet loss, not a missing acknowledgement
+                    self.delivered.setdefault((ep.name, r.epoch), set()).add(r.pn)
+                    continue
             key = (ep.name, r.epoch)
             self.delivered.setdefault(key, set()).add(r.pn)
             if r.pn > self.largest.get(key, -1):
@@ -289,6 +301,8 @@ class AckMonitor(netsim.Monitor):
                         self.next_tx[key] = r.pn
 
     def before_api(self, w, ep, name):
+        if name == "request_key_update":
+            self.local_ku[ep.name] = self.sent_phase[ep.name] ^ 1
         # an obligation is overdue when virtual time has passed its deadline and the
         # harness itself was punctual for that endpoint
         for o in self.oblig:
@@ -300,11 +314,24 @@ class AckMonitor(netsim.Monitor):
                     o[3] = True
                     continue
                 o[3] = True
+                sig = {"monitor": "ack.late"}
+                extra = ""
+                # RFC 9000 8.1 takes precedence: towards an address that is not validated yet an endpoint may
+                # send at most three times what it received from it
+                paths = getattr(e.conn, "_network_paths", None) or []
+                if paths and not paths[0].is_validated:
+                    budget = 3 * paths[0].bytes_received - paths[0].bytes_sent
+                    if budget < 40:
+                        continue   # not even a minimal ACK-only packet may be sent: no obligation
+                    if budget < 128:
+                        sig["amplification_budget"] = "below_ack_frame_reservation"
+                        extra = (" [path not validated, anti-amplification budget %d bytes: a minimal ACK-only packet "
+                                 "fits, the 64-byte ACK frame reservation plus packet overhead does not]" % budget)
                 raise Violation(
-                    {"monitor": "ack.late"},
+                    sig,
                     "%s: ack-eliciting 1-RTT packet %d arrived at %.6f, no ACK covering it left by %.6f "
-                    "(advertised max_ack_delay 25 ms); now %.6f"
-                    % (o[0], o[1], o[4] - w.t0, o[2] - w.t0, w.now - w.t0),
+                    "(advertised max_ack_delay 25 ms); now %.6f%s"
+                    % (o[0], o[1], o[4] - w.t0, o[2] - w.t0, w.now - w.t0, extra),
                 )
 
     def after_pump(self, w, ep, cause, sent, new_events, timer):
@@ -313,6 +340,8 @@ class AckMonitor(netsim.Monitor):
             for r in d.recs:
                 if not r.opened or r.epoch is None:
                     continue
+                if r.type == "1rtt" and r.key_phase is not None:
+                    self.sent_phase[ep.name] = r.key_phase
                 acked = None
                 for f in r.frames or []:
                     if f["t"] == "ACK":
